@@ -3,6 +3,7 @@ package main
 import (
 	"fmt"
 	"go/ast"
+	"go/constant"
 	"go/parser"
 	"go/token"
 	"go/types"
@@ -36,6 +37,8 @@ func init() {
 	ruleText["R17.4"] = "a negative selection verdict prevents reading/parsing the file on every control-flow path"
 	ruleText["R17.6"] = "a loop that adds tags to Context.BuildTags has no break/return/goto; in the evaluator's loop over the file's comment groups no continue/break is guarded by a condition on the group's text other than an emptiness test"
 	ruleText["R17.7"] = "in the file-name rule, every return after the split of the name that can keep the file is reached only on paths where the last element has been looked up in (or decided against) both the OS and the architecture table (go/cfg must-analysis, short-circuit conditions split per operand)"
+	ruleText["R17.8"] = "in the constraint evaluator, no return whose first result is not the constant true is reachable (go/cfg) after a statement adding to Context.BuildTags, directly or through an in-package function"
+	ruleText["R17.9"] = "three-valued abstract interpretation of the result of every function testing membership in Context.BuildTags, pruned under 'membership is true, the tag is not negated': every reachable return is definitely true"
 	ruleText["R17.5"] = "the go1.N tag is satisfied exactly when N <= the context's last release tag (equivalent to membership in ReleaseTags)"
 }
 
@@ -415,6 +418,8 @@ func runC17(c *Config, r *Report) {
 	// ---- R17.6 every line and every tag is looked at ------------------------------------
 	if !delegated {
 		c17R6(ic, r, decls, ic.G.Funcs[okFn])
+		c17R8(ic, r, decls, ic.G.Funcs[okFn])
+		c17R9(ic, r, decls)
 	}
 
 	// ---- R17.4 gating -------------------------------------------------------------------
@@ -1364,5 +1369,335 @@ func c17R7(ic *IC, r *Report, skipDecl *FuncInfo, osTab, archTab *types.Var) {
 	}
 	if nKeep == 0 {
 		r.Errorf("R17.7: no keep verdict found after the split in %s", name)
+	}
+}
+
+// c17R8: the tags of yaegi:tags comments are added by the files that take part. In the
+// constraint evaluator, no negative verdict (a return whose first result is not the constant
+// true) is reachable on the flow graph after a statement that adds to Context.BuildTags,
+// directly or through an in-package function: a file rejected by its own constraints must not
+// have changed the tag set used for every file loaded afterwards.
+func c17R8(ic *IC, r *Report, decls []*FuncInfo, okDecl *FuncInfo) {
+	if okDecl == nil || okDecl.Decl.Body == nil {
+		return
+	}
+	info := ic.Info
+	addsDirect := func(n ast.Node) bool {
+		found := false
+		ast.Inspect(n, func(m ast.Node) bool {
+			if as, ok := m.(*ast.AssignStmt); ok {
+				for _, l := range as.Lhs {
+					if v := selField(info, l); v != nil && v.Pkg() != nil && v.Pkg().Path() == "go/build" && v.Name() == "BuildTags" {
+						found = true
+					}
+				}
+			}
+			return !found
+		})
+		return found
+	}
+	adders := map[*types.Func]bool{}
+	for changed := true; changed; {
+		changed = false
+		for _, fi := range ic.F {
+			if fi.Decl.Body == nil || fi.Obj == nil || adders[fi.Obj] {
+				continue
+			}
+			is := addsDirect(fi.Decl.Body)
+			if !is {
+				ast.Inspect(fi.Decl.Body, func(m ast.Node) bool {
+					if c, ok := m.(*ast.CallExpr); ok {
+						if f, ok := calleeOf(info, c).(*types.Func); ok && adders[f] {
+							is = true
+						}
+					}
+					return !is
+				})
+			}
+			if is {
+				adders[fi.Obj] = true
+				changed = true
+			}
+		}
+	}
+	delete(adders, okDecl.Obj)
+	isAdd := func(n ast.Node) bool {
+		if addsDirect(n) {
+			return true
+		}
+		found := false
+		ast.Inspect(n, func(m ast.Node) bool {
+			if _, ok := m.(*ast.FuncLit); ok {
+				return false
+			}
+			if c, ok := m.(*ast.CallExpr); ok {
+				if f, ok := calleeOf(info, c).(*types.Func); ok && adders[f] {
+					found = true
+				}
+			}
+			return !found
+		})
+		return found
+	}
+	g := cfg.New(okDecl.Decl.Body, func(c *ast.CallExpr) bool { return !noReturn(info, c) })
+	name := funcName(okDecl.Decl)
+	nAdds := 0
+	for _, b := range g.Blocks {
+		for i, n := range b.Nodes {
+			if !isAdd(n) {
+				continue
+			}
+			nAdds++
+			// forward from the node after n
+			var bad []string
+			seen := map[*cfg.Block]bool{}
+			var scan func(nodes []ast.Node) bool
+			scan = func(nodes []ast.Node) bool {
+				for _, m := range nodes {
+					if rs, ok := m.(*ast.ReturnStmt); ok {
+						if len(rs.Results) == 0 {
+							bad = append(bad, "a bare return at "+ic.pos(rs.Pos()))
+						} else if tv, ok := info.Types[rs.Results[0]]; !ok || tv.Value == nil || tv.Value.Kind() != constant.Bool || !constant.BoolVal(tv.Value) {
+							bad = append(bad, "return "+types.ExprString(rs.Results[0])+" at "+ic.pos(rs.Pos()))
+						}
+						return true
+					}
+				}
+				return false
+			}
+			var walk func(bb *cfg.Block)
+			walk = func(bb *cfg.Block) {
+				if seen[bb] {
+					return
+				}
+				seen[bb] = true
+				if scan(bb.Nodes) {
+					return
+				}
+				for _, s := range bb.Succs {
+					walk(s)
+				}
+			}
+			if !scan(b.Nodes[i+1:]) {
+				for _, s := range b.Succs {
+					walk(s)
+				}
+			}
+			r.Check(len(bad) == 0, "R17.8", fmt.Sprintf("%s/tags-added#%d/only-by-selected-files", name, nAdds), ic.pos(n.Pos()), "no negative verdict is reachable after the tags are added",
+				name+" adds yaegi:tags to Context.BuildTags here and can still reach "+strings.Join(dedupStr(bad), ", ")+": a file excluded by its own constraints has already changed the tag set, which persists for every file and package loaded afterwards (the Go toolchain only ever uses the tags it was given)")
+		}
+	}
+	if nAdds == 0 {
+		r.Note("R17.8: the constraint evaluator adds no tag itself (yaegi:tags handled elsewhere)")
+	}
+}
+
+// c17R9: a tag listed in Context.BuildTags is satisfied whatever else it looks like (go/build's
+// matchTag is a disjunction: a custom tag spelled like an OS, an architecture or a release is
+// still a tag that was set). Decided by a three-valued abstract interpretation of the boolean
+// result of every in-package function that tests membership in BuildTags, on its flow graph
+// pruned under "the membership test is true" and "the tag is not negated": every reachable
+// return yields true.
+func c17R9(ic *IC, r *Report, decls []*FuncInfo) {
+	info := ic.Info
+	n := 0
+	for _, fi := range decls {
+		if fi.Decl.Body == nil || fi.Obj == nil {
+			continue
+		}
+		sig := fi.Obj.Type().(*types.Signature)
+		if sig.Results().Len() != 1 || !types.Identical(sig.Results().At(0).Type(), types.Typ[types.Bool]) {
+			continue
+		}
+		isMember := func(e ast.Expr) bool {
+			c, ok := e.(*ast.CallExpr)
+			if !ok {
+				return false
+			}
+			for _, a := range c.Args {
+				if v := selField(info, a); v != nil && v.Pkg() != nil && v.Pkg().Path() == "go/build" && v.Name() == "BuildTags" {
+					return true
+				}
+			}
+			return false
+		}
+		has := false
+		ast.Inspect(fi.Decl.Body, func(m ast.Node) bool {
+			if e, ok := m.(ast.Expr); ok && isMember(e) {
+				has = true
+			}
+			return !has
+		})
+		if !has {
+			continue
+		}
+		// a function that adds tags tests membership to avoid duplicates: not an evaluator
+		writes := false
+		ast.Inspect(fi.Decl.Body, func(m ast.Node) bool {
+			if as, ok := m.(*ast.AssignStmt); ok {
+				for _, l := range as.Lhs {
+					if v := selField(info, l); v != nil && v.Pkg() != nil && v.Pkg().Path() == "go/build" && v.Name() == "BuildTags" {
+						writes = true
+					}
+				}
+			}
+			return !writes
+		})
+		if writes {
+			continue
+		}
+		n++
+		// negation flags: boolean locals defined from a comparison with the character '!'
+		negFlags := map[types.Object]bool{}
+		ast.Inspect(fi.Decl.Body, func(m ast.Node) bool {
+			as, ok := m.(*ast.AssignStmt)
+			if !ok || len(as.Lhs) != 1 || len(as.Rhs) != 1 {
+				return true
+			}
+			mentionsBang := false
+			ast.Inspect(as.Rhs[0], func(k ast.Node) bool {
+				if bl, ok := k.(*ast.BasicLit); ok && (bl.Value == "'!'" || bl.Value == `"!"`) {
+					mentionsBang = true
+				}
+				return true
+			})
+			if id, ok := as.Lhs[0].(*ast.Ident); ok && mentionsBang {
+				if t := info.TypeOf(id); t != nil && types.Identical(t.Underlying(), types.Typ[types.Bool]) {
+					negFlags[info.ObjectOf(id)] = true
+				}
+			}
+			return true
+		})
+		var resVar types.Object
+		if sig.Results().At(0).Name() != "" {
+			resVar = sig.Results().At(0)
+		}
+		g := cfg.New(fi.Decl.Body, func(c *ast.CallExpr) bool { return !noReturn(info, c) })
+		// state: value of the named result at block entry; -2 = not reached
+		const bottom = -2
+		in := map[*cfg.Block]int{}
+		for _, b := range g.Blocks {
+			in[b] = bottom
+		}
+		join := func(a, b int) int {
+			if a == bottom {
+				return b
+			}
+			if b == bottom || a == b {
+				return a
+			}
+			return triUnknown
+		}
+		mkAtom := func(cur *int) func(ast.Expr) int {
+			return func(e ast.Expr) int {
+				if isMember(e) {
+					return triTrue
+				}
+				if id, ok := e.(*ast.Ident); ok {
+					o := info.ObjectOf(id)
+					if negFlags[o] {
+						return triFalse
+					}
+					if resVar != nil && o == resVar {
+						return *cur
+					}
+					if tv, ok := info.Types[e]; ok && tv.Value != nil && tv.Value.Kind() == constant.Bool {
+						if constant.BoolVal(tv.Value) {
+							return triTrue
+						}
+						return triFalse
+					}
+				}
+				return triUnknown
+			}
+		}
+		var bad []string
+		if len(g.Blocks) > 0 {
+			in[g.Blocks[0]] = triFalse // zero value of the named result
+			work := []*cfg.Block{g.Blocks[0]}
+			iter := 0
+			for len(work) > 0 && iter < 10000 {
+				iter++
+				b := work[0]
+				work = work[1:]
+				cur := in[b]
+				atom := mkAtom(&cur)
+				returned := false
+				for _, nd := range b.Nodes {
+					switch x := nd.(type) {
+					case *ast.AssignStmt:
+						for i, l := range x.Lhs {
+							if id, ok := l.(*ast.Ident); ok && resVar != nil && info.ObjectOf(id) == resVar {
+								if len(x.Lhs) == len(x.Rhs) {
+									cur = evalCond(x.Rhs[i], atom)
+								} else {
+									cur = triUnknown
+								}
+							}
+						}
+					case *ast.ReturnStmt:
+						returned = true
+					}
+				}
+				if returned {
+					continue
+				}
+				succs := b.Succs
+				if len(b.Succs) == 2 && len(b.Nodes) > 0 {
+					if cond, ok := b.Nodes[len(b.Nodes)-1].(ast.Expr); ok {
+						switch evalCond(cond, atom) {
+						case triTrue:
+							succs = b.Succs[:1]
+						case triFalse:
+							succs = b.Succs[1:]
+						}
+					}
+				}
+				for _, s := range succs {
+					if nv := join(in[s], cur); nv != in[s] {
+						in[s] = nv
+						work = append(work, s)
+					}
+				}
+			}
+			// verdicts at the reachable returns (second pass with the fixpoint states)
+			for _, b := range g.Blocks {
+				if in[b] == bottom {
+					continue
+				}
+				cur := in[b]
+				atom := mkAtom(&cur)
+				for _, nd := range b.Nodes {
+					switch x := nd.(type) {
+					case *ast.AssignStmt:
+						for i, l := range x.Lhs {
+							if id, ok := l.(*ast.Ident); ok && resVar != nil && info.ObjectOf(id) == resVar {
+								if len(x.Lhs) == len(x.Rhs) {
+									cur = evalCond(x.Rhs[i], atom)
+								} else {
+									cur = triUnknown
+								}
+							}
+						}
+					case *ast.ReturnStmt:
+						v := cur
+						what := "return (named result)"
+						if len(x.Results) == 1 {
+							v = evalCond(x.Results[0], atom)
+							what = "return " + types.ExprString(x.Results[0])
+						}
+						if v != triTrue {
+							bad = append(bad, what+" at "+ic.pos(x.Pos()))
+						}
+					}
+				}
+			}
+		}
+		name := funcName(fi.Decl)
+		r.Check(len(bad) == 0, "R17.9", name+"/set-tag-is-satisfied", ic.pos(fi.Decl.Pos()), "a tag found in Context.BuildTags always evaluates to true",
+			"for a tag that is listed in Context.BuildTags and not negated, "+name+" can reach "+strings.Join(dedupStr(bad), ", ")+" whose value is not definitely true: a custom tag spelled like an OS, an architecture or a release (-tags linux on darwin) is evaluated by that other rule only, while go/build's matchTag accepts every tag that was set")
+	}
+	if n == 0 {
+		r.Errorf("R17.9: no boolean function testing membership in Context.BuildTags is reachable from the constraint evaluator")
 	}
 }
